@@ -270,6 +270,27 @@ def native_playback(h, test, expect_msg=None):
     return True, tail
 
 
+def directed_native_test(ddir, tname):
+    """cargo test of a hand-written native reproduction (real containers, no Kani). True = it fails,
+    i.e. the defect is present in /repo's current tree."""
+    d = os.path.join(VERIF, ddir)
+    env = dict(BASE_ENV)
+    env["CARGO_TARGET_DIR"] = os.path.join(TARGETS, ddir)
+    try:
+        open(os.path.join(d, "Cargo.lock"), "w").write(open("/repo/Cargo.lock").read())
+    except OSError:
+        pass
+    try:
+        p = subprocess.run(["cargo", "test", "--offline", "--", tname], cwd=d, env=env, capture_output=True, text=True, timeout=1200)
+    except subprocess.TimeoutExpired:
+        return None, "directed test timeout"
+    out = p.stdout + p.stderr
+    res = re.search(r"test result: (\w+)\. (\d+) passed; (\d+) failed", out)
+    if not res or int(res.group(2)) + int(res.group(3)) == 0:
+        return None, out[-1500:]
+    return int(res.group(3)) > 0, out[-1500:]
+
+
 def handle_failure(prop, h, r, known, mem_gb):
     """Returns list of dicts: {kind: known|violation|noreplay, ...}"""
     results = []
@@ -296,6 +317,15 @@ def handle_failure(prop, h, r, known, mem_gb):
             used = t
             if reproduced:
                 break
+        if not reproduced:
+            # directed native reproduction registered for this assertion (used where the instance
+            # is too large for Kani's playback generator)
+            for sub, (ddir, tname) in h.get("native_tests", {}).items():
+                if sub in chk["msg"]:
+                    r2, tail2 = directed_native_test(ddir, tname)
+                    if r2:
+                        reproduced, tail = True, tail2
+                        used = {"code": "directed native test %s::%s" % (ddir, tname), "test": tname}
         rec = {"property": prop, "crate": h["crate"], "harness": h["name"], "failed_check": chk, "key": finding_key(h, chk),
                "playback_test": used["code"] if used else None, "playback_test_name": used["test"] if used else None,
                "native_reproduced": reproduced, "native_output_tail": tail, "kani_log": r["log"]}
